@@ -287,7 +287,7 @@ class Lookup(Op):
             if not w.cfg.get("judge_scan", True):
                 return None
             return Exp("ok", value=None, owner=(PROP_OF[m],))
-        if not w.cfg.get("judge_scan", True):
+        if not w.cfg.get("judge_scan", True) or not w.owns((PROP_OF[m],)):
             return None  # C12: only the pairwise comparison across schedules decides
         kind = w.m.nodes[op["scope"]].kind
         judge(w, op["scope"], kind, m, op.get("q"), out.raw)
